@@ -335,7 +335,10 @@ class PosixModel(object):
         return StatResult(of.node, self.dev_of(of.cpath), self.uid)
 
     def access(self, path, mode, follow_symlinks=True):
-        return self._sys('access', self._access, path, mode, follow_symlinks)
+        try:
+            return self._sys('access', self._access, path, mode, follow_symlinks)
+        except OSError:  # access(2) failing for any reason is reported as False by os.access
+            return False
 
     def _access(self, path, mode, follow):
         try:
